@@ -388,13 +388,20 @@ def request_tree(s_kids, name_kids, tag_pieces, arr_strings, echo_extra=(), item
     arr = ('e', T_ARR, [], list(arr_extra) + [('e', T_STRING, [], k) for k in arr_strings])
     return ('e', T_ECHO, [], list(echo_extra) + [('e', T_S, [], s_kids), item, arr])
 
-def soap_wrap(root, nsenv):
-    return ('e', T_ENV, [], [('e', T_BODY, [], [root])], nsenv)
+def soap_wrap(root, nsenv, wrap=None):
+    """the request inside a SOAP envelope; wrap = (wrapper position, content nodes) puts the payload between the
+    elements of the envelope itself: before <Body>, before the method element, after the method element"""
+    pos, pl = wrap or (None, [])
+    body = ('e', T_BODY, [], (list(pl) if pos == 'body-first' else []) + [root] + (list(pl) if pos == 'body-last' else []))
+    return ('e', T_ENV, [], (list(pl) if pos == 'env-first' else []) + [body], nsenv)
 
 # 'n' is the text of a NON-string leaf (Integer): digits first, then the payload - an oracle-only position
 # (the model's observation does not include n): a reader that takes the XPath string-value of the element
 # instead of its text would substitute the entity there
 POSITIONS = ['s', 'name', 'string', 'attr', 'between-echo', 'between-item', 'between-arr', 'n']
+# between-element positions of the protocol's own wrapper (SOAP routes only): the code that picks the header
+# entries and the method element out of the envelope meets whatever node the parser left there
+WRAP_POSITIONS = ['env-first', 'body-first', 'body-last']
 
 def place(rng, pos, payload_text=None, payload_attr=None):
     """a valid request with the payload (a list of content nodes / attribute pieces) at `pos`"""
@@ -403,7 +410,9 @@ def place(rng, pos, payload_text=None, payload_attr=None):
     tag_pieces = [('t', word(rng))]
     strings = [[('t', word(rng))] for _ in range(rng.randint(1, 2))]
     kw = {}
-    if pos == 'attr':
+    if pos in WRAP_POSITIONS:
+        pass                      # the payload goes into the envelope (soap_wrap), the request itself is plain
+    elif pos == 'attr':
         tag_pieces = [('t', pre)] + payload_attr + [('t', post)]
     else:
         mixed = [('t', pre)] + payload_text + [('t', post)] if rng.random() < 0.7 else \
@@ -431,11 +440,14 @@ def attack_docs(check, tier):
     def add(family, pos, decls, text_payload, attr_payload=None, ext=None, doctype=True):
         root = place(rng, pos, text_payload, attr_payload if attr_payload is not None else
                      [p if p[0] != 'r' else ('r', p[1]) for p in text_payload if p[0] in ('t', 'r')])
-        out.append((family, pos, dict(doctype=doctype, ext=ext, decls=decls, root=root)))
+        doc = dict(doctype=doctype, ext=ext, decls=decls, root=root)
+        if pos in WRAP_POSITIONS:
+            doc['wrap'] = (pos, text_payload)
+        out.append((family, pos, doc))
     schemes = ['file', 'http', 'ftp']
     reps = 1 if tier == 'quick' else 4
     for _ in range(reps):
-        for pos in POSITIONS:
+        for pos in POSITIONS + WRAP_POSITIONS:
             # external general entity
             for sch in schemes:
                 res = rng.choice([R_CANARY, R_TEXT2]) if sch == 'file' else rng.randint(5, 9)
@@ -567,6 +579,12 @@ def raw_correspondence(check, world, docs, tier):
     lattice = cfg_lattice()
     cases = []
     for family, pos, doc in docs:
+        if 'wrap' in doc:
+            # payload between the elements of a SOAP envelope: the parser sees nothing new there (a between-element
+            # position); compared in the thorough tier only, with the envelope as part of the document
+            if tier == 'quick':
+                continue
+            doc = dict(doc, root=soap_wrap(doc['root'], NS11, doc['wrap']))
         data = render_doc(world, doc)
         heavy = family.startswith(('bomb', 'quadratic', 'nesting-2', 'nesting-5', 'many-'))
         cfgs = lattice if not heavy else [lattice[0], lattice[1], lattice[2], lattice[8], lattice[9], lattice[14]]
@@ -613,6 +631,8 @@ def build_apps():
     apps = {}
     for nm, P in (('XmlDocument', XmlDocument), ('Soap11', Soap11), ('Soap12', Soap12)):
         apps[nm] = Application([Svc], NS_TNS, name='C17App', in_protocol=P(), out_protocol=P())
+        # the same service behind libxml2's schema validator: every other setting at its default
+        apps[nm + '/lxml'] = Application([Svc], NS_TNS, name='C17App', in_protocol=P(validator='lxml'), out_protocol=P())
     return apps
 
 def permissive_first(world):
@@ -682,7 +702,10 @@ ROUTES = [('XmlDocument', 'ServerBase'), ('XmlDocument', 'WSGI'), ('Soap11', 'Se
 #   WSGI-decl          charset in Content-Type AND an XML declaration with encoding=: lxml refuses the decoded
 #                      text and _parse_xml_string falls back to a second parse call
 #   WSGI-multipart-cl  the attachment is located by Content-Location, not Content-ID
+#   *-lxml             the protocol constructed with validator='lxml' (oracle only: libxml2's schema validator
+#                      then walks the tree the parser left, entity-reference nodes included)
 ORACLE_ROUTES = [('Soap11', 'WSGI-decl'), ('Soap12', 'WSGI-decl'), ('Soap11', 'WSGI-multipart-cl')]
+LXML_ROUTES = [(p, t + '-lxml') for p in ('XmlDocument', 'Soap11', 'Soap12') for t in ('ServerBase', 'WSGI')]
 
 def classify(status_or_code, out, transport):
     """-> 'ok' | 'syntax' | 'other'"""
@@ -692,13 +715,29 @@ def classify(status_or_code, out, transport):
         return 'ok' if status_or_code is None else 'other'
     return 'ok' if (status_or_code or '').startswith('200') else 'other'
 
+def send(apps, proto, transport, data):
+    """one request through one route; transport = ServerBase | WSGI | WSGI-decl | WSGI-multipart[-cl], with the
+    suffix -lxml for the application whose protocol was constructed with validator='lxml'"""
+    app = apps[proto]
+    if transport.endswith('-lxml'):
+        app, transport = apps[proto + '/lxml'], transport[:-5]
+    ct = 'application/soap+xml; charset=utf-8' if proto == 'Soap12' else 'text/xml; charset=utf-8'
+    if transport == 'ServerBase':
+        return call_serverbase(app, data)
+    if transport == 'WSGI':
+        return call_wsgi(app, data, ct)
+    if transport == 'WSGI-decl':
+        return call_wsgi(app, b'<?xml version="1.0" encoding="UTF-8"?>' + data, ct)
+    body, ct = multipart(data, by_location=(transport == 'WSGI-multipart-cl'))
+    return call_wsgi(app, body, ct)
+
 def drive(apps, world, route, doc):
     """run one document through one route; returns a dict of observations (implementation only)"""
     proto, transport = route
     if proto == 'XmlDocument':
         d2 = doc
     else:
-        d2 = dict(doc, root=soap_wrap(doc['root'], NS11 if proto == 'Soap11' else NS12))
+        d2 = dict(doc, root=soap_wrap(doc['root'], NS11 if proto == 'Soap11' else NS12, doc.get('wrap')))
     data = render_doc(world, d2)
     del CAPTURE[:]
     world.file_events(); world.net_hits()
@@ -706,23 +745,12 @@ def drive(apps, world, route, doc):
     esc = None
     status, out = None, b''
     try:
-        if transport == 'ServerBase':
-            status, out = call_serverbase(apps[proto], data)
-        elif transport == 'WSGI':
-            ct = 'application/soap+xml; charset=utf-8' if proto == 'Soap12' else 'text/xml; charset=utf-8'
-            status, out = call_wsgi(apps[proto], data, ct)
-        elif transport == 'WSGI-decl':
-            ct = 'application/soap+xml; charset=utf-8' if proto == 'Soap12' else 'text/xml; charset=utf-8'
-            data = b'<?xml version="1.0" encoding="UTF-8"?>' + data
-            status, out = call_wsgi(apps[proto], data, ct)
-        else:
-            body, ct = multipart(data, by_location=(transport == 'WSGI-multipart-cl'))
-            status, out = call_wsgi(apps[proto], body, ct)
+        status, out = send(apps, proto, transport, data)
     except Exception as e:
         esc = type(e).__name__
     dt = time.time() - t0
-    # an lxml syntax error that leaves the server uncaught is this property's business; any other
-    # escaping exception (e.g. AttributeError on an entity node between elements) is C10's
+    # an exception that leaves the server uncaught: 'escape' for lxml's own syntax error, 'other' for anything
+    # else (the oracle reports both: an entity-bearing request must be served or refused as a fault)
     kind = ('escape' if esc == 'XMLSyntaxError' else 'other') if esc else classify(status, out, transport)
     return dict(data=data, doc=d2, kind=kind, esc=esc, status=status, out=out, captured=list(CAPTURE),
                 files=world.file_events(), hits=world.net_hits(), wall=dt)
@@ -793,6 +821,31 @@ SPYNE_SHOW = '''(fun k : (%s) =>
 
 KIND_ID = {'syntax': 0, 'ok': 1, 'other': 2, 'escape': 3}
 
+# validator='lxml': the parse is the same; libxml2's schema validator then refuses (XMLSchemaValidateError,
+# "internal error") any tree in which the parser left an entity-reference node, and Spyne reports that as a client
+# fault; only the method element is validated, so a reference between the elements of the envelope is not met.
+# Modelled, not verified; schema validity of reference-free trees is not modelled (any outcome but an
+# escaping exception agrees).  observed kind: 0 syntax fault, 1 served, 2 another fault, 3 an exception escaped
+VALID_TYPE = 'string * bool * doc * Z'
+VALID_OKB = '''(fun k : (%s) =>
+  let '(fn, inpayload, d, kind) := k in
+  match find (fun s => String.eqb (s_func s) fn) parse_sites with
+  | None => false
+  | Some sB =>
+    match site_cfg init_defaults parser_kwargs_src sB with
+    | SCfg cB =>
+      match create_in_document (s_catch sB) cB world0 d with
+      | (_, RSyntaxFault) => kind =? 0
+      | (_, REscapes) => kind =? 3
+      | (_, RUnspecified) => true
+      | (_, RDoc t g) =>
+          if inpayload && existsb (fun x => match x with TRef _ => true | _ => false end) (flat cB g t)
+          then kind =? 2 else negb (kind =? 3)
+      end
+    | _ => false
+    end
+  end)''' % VALID_TYPE
+
 def is_bomb(family):
     """documents the property requires to be REJECTED: expansion far beyond libxml2's guard,
     element nesting beyond its default depth limit, entity nesting beyond its limit, loops"""
@@ -815,13 +868,21 @@ def spyne_layer(check, world, docs, tier):
     permissive_first(world)
     apps = build_apps()
     site_names = site_of_route(check)
-    cases = []
+    cases, vcases = [], []
     stats = {}
     for family, pos, doc in docs:
         routes = ROUTES
         if tier == 'quick' and family.startswith(('nesting-', 'int-nesting', 'bomb', 'quadratic', 'many-')):
             routes = [ROUTES[check.rng.randrange(2)], ROUTES[2 + check.rng.randrange(4)], ROUTES[6]]
         routes = list(routes) + ORACLE_ROUTES
+        if pos != 'attr':
+            # (attribute values: libxml2 substitutes internal entities on read whatever the validator is - the
+            # listed finding; not repeated on the validating routes)
+            routes += LXML_ROUTES if tier != 'quick' else check.rng.sample(LXML_ROUTES, 2)
+        if 'wrap' in doc:
+            routes = [r for r in routes if r[0] != 'XmlDocument']
+            if tier == 'quick':
+                routes = check.rng.sample(routes, min(4, len(routes)))
         for route in routes:
             o = drive(apps, world, route, doc)
             proto, transport = route
@@ -833,7 +894,13 @@ def spyne_layer(check, world, docs, tier):
                                'captured': repr(o['captured'])[:400], 'response': o['out'][:400].decode('utf8', 'replace'),
                                'files_read': sorted(o['files']), 'socket_hits': o['hits']}}
             oracle(check, world, family, pos, where, o, rp)
-            if route in ORACLE_ROUTES:
+            if route in LXML_ROUTES:
+                vcases.append(('("%s"%%string, %s, %s, %d)' % (site_names[proto], gbool('wrap' not in doc),
+                                                              g_doc(o['doc'], len(o['data'])),
+                                                          3 if o['esc'] else KIND_ID[o['kind']]),
+                               '%s | %s at %s | %s -> %s %s' % (where, family, pos, o['data'][:300].decode(), o['kind'],
+                                                                o['esc'] or '')))
+            if route in ORACLE_ROUTES or route in LXML_ROUTES:
                 continue
             # correspondence case
             if pos in ('between-arr', 'n') or (transport == 'WSGI-multipart' and any(d[0] == 'pe' for d in doc['decls'])):
@@ -860,12 +927,13 @@ def spyne_layer(check, world, docs, tier):
     lib.correspond(check, 'spyne_entry_points', PRELUDE + world.coq() + SPYNE_PRE, SPYNE_TYPE,
                    SPYNE_OKB.replace('@SWA@', site_names['swa']), cases,
                    shard=150, show=SPYNE_SHOW)
+    lib.correspond(check, 'validated_entry_points', PRELUDE + world.coq(), VALID_TYPE, VALID_OKB, vcases, shard=200)
     check.extra['spyne_outcomes'] = stats
     return len(cases)
 
 def oracle(check, world, family, pos, where, o, rp):
     """the property, on the implementation alone"""
-    posk = 'attribute' if pos == 'attr' else 'text'
+    posk = 'attribute' if pos == 'attr' else 'envelope' if pos in WRAP_POSITIONS else 'text'
     fam = family.split('-')[0] + ('-' + family.split('-')[1] if family.startswith(('ext-', 'int-')) else '')
     if o['files']:
         check.fail('C17|local-file-read|%s|%s|%s' % (fam, posk, where),
@@ -882,6 +950,12 @@ def oracle(check, world, family, pos, where, o, rp):
     if o['kind'] == 'escape':
         check.fail('C17|exception-escapes|%s|%s|%s' % (fam, posk, where),
                    'a %s request made %s escape the server instead of a client fault' % (family, o['esc']), rp)
+    elif o['esc']:
+        # whatever the parser leaves in the tree for a request that carries DTD/entity material (an entity-reference
+        # node between elements, inside a leaf, in front of the method element; under any validator), the request is
+        # served or refused as a fault: an unhandled exception is neither
+        check.fail('C17|unhandled-exception|%s|%s|%s|%s' % (o['esc'], fam, pos, where),
+                   'a %s request made %s escape the server (neither served nor refused as a fault)' % (family, o['esc']), rp)
     if is_bomb(family) and o['kind'] != 'syntax':
         check.fail('C17|bomb-not-rejected|%s|%s|%s' % (fam, posk, where),
                    'a %s document was not rejected as Client.XMLSyntaxError (outcome: %s)' % (family, o['kind']), rp)
@@ -1167,13 +1241,7 @@ def replay(check, path):
         proto, transport = rp['route']
         data = rp['request'].encode('ascii')
         try:
-            if transport == 'ServerBase':
-                st, out = call_serverbase(apps[proto], data)
-            elif transport == 'WSGI':
-                st, out = call_wsgi(apps[proto], data, 'application/soap+xml' if proto == 'Soap12' else 'text/xml')
-            else:
-                body, ct = multipart(data)
-                st, out = call_wsgi(apps[proto], body, ct)
+            st, out = send(apps, proto, transport, data)
             print('re-run on %s: status=%r captured=%r response=%r' % (lib.REPO, st, CAPTURE, out[:400]))
         except Exception as e:
             print('re-run on %s: %s escaped: %s' % (lib.REPO, type(e).__name__, e))
